@@ -518,6 +518,9 @@ func generate(prop, tier string, r *rand.Rand, idx int) any {
 		sc.Ctx.DeadlineUs = 36_000_000_000 + int64(r.IntN(1000))
 	}
 	for _, n := range sc.Nodes {
+		if (n.Kind == "func" || n.Kind == "batch") && !n.Hand && r.IntN(6) == 0 {
+			n.Sibling = true // built from an option slice that an earlier constructor call has already seen
+		}
 		if (n.Kind == "func" || n.Kind == "batch") && !n.Hand {
 			for i := range n.Settings {
 				if n.Settings[i].Form == "opt" && r.IntN(5) == 0 {
@@ -1447,6 +1450,14 @@ func genC17base(prop, tier string, r *rand.Rand) *Scn {
 			// payloads are handed on unchanged in either error mode (for every item that is processed)
 			n := g.rootBatch(batchSize(r, 8), 1+r.IntN(3), 0, conc, r.IntN(3) == 0, []string{"results", "anys", "ints", "strings", "single"})
 			g.timing(n)
+			if n.PrepShape == "anys" && n.style(1) == 'A' && n.config().Conc <= 0 && !n.config().Stop && r.IntN(2) == 0 {
+				// untyped nils in the item list: items like any other (attributed by call order)
+				for i := range n.Visits[0].Items {
+					if r.IntN(3) == 0 {
+						n.Visits[0].Items[i] = Item{Pay: "nilitem", Exec: []Outcome{{Pay: "int"}}}
+					}
+				}
+			}
 		}
 		return g.sc
 	})
@@ -1763,6 +1774,26 @@ func cancelInPlainCallback(sc *Scn, r *rand.Rand) {
 }
 
 func genC10base(prop, tier string, r *rand.Rand) *Scn {
+	if r.IntN(60) == 0 {
+		// "at any nesting depth": a chain of flows nested a hundred and more deep
+		// around two leaves (the inner one's action routes the innermost flow)
+		g := newGen(prop, tier, r)
+		g.failP = 0
+		a, b := g.leaf(1), g.leaf(1)
+		a.Visits[0].Post = Outcome{Action: "a"}
+		b.Visits[0].Post = Outcome{Action: "b"}
+		inner := &NodeSpec{ID: len(g.sc.Nodes), Kind: "flow", Start: a.ID, Conns: []Conn{{From: a.ID, Action: "a", To: b.ID}}}
+		g.sc.Nodes = append(g.sc.Nodes, inner)
+		cur := inner.ID
+		for d := 60 + r.IntN(100); d > 0; d-- {
+			f := &NodeSpec{ID: len(g.sc.Nodes), Kind: "flow", Start: cur}
+			g.sc.Nodes = append(g.sc.Nodes, f)
+			cur = f.ID
+		}
+		g.sc.Root = cur
+		g.sc.Runs = 1
+		return g.sc
+	}
 	return bounded(func() *Scn {
 		g := newGen(prop, tier, r)
 		faultfree(g, r)
